@@ -17,6 +17,12 @@ Events (text form, ` ; `-separated in corpus / replay files):
     R k          the peer answers outgoing request k                             (RPC only)
   application
     F i          release handler i's gate (it returns)
+    Z i          cancel the future handler i (kind W) is awaiting: its task ends with CancelledError
+    WC i fa      handler waits for its gate (F i), then calls session.close(force_after=fa)
+    OM k n       n tasks k .. k+n-1 call send_request at the same moment
+    WM i n       n requests i .. i+n-1 with waiting handlers arrive in one chunk (more than the
+                 incoming limiter admits at once)
+    XC c         cancel application task c while it is inside close()
     O k          task: send_request        OB k  task: batch of 2 requests + 1 notification
     ON k         task: send_notification / send_message
     AC c fa      task: close(force_after=fa)     ACC c d fa   two such tasks started together
@@ -26,6 +32,10 @@ Events (text form, ` ; `-separated in corpus / replay files):
     L            peer closed (connection_lost(None))     LE   link broke (connection_lost(exc))
     PA / RE      send buffer full / drained
     A dt         dt seconds of virtual time pass
+  fault at a micro-step
+    M n f        the NEXT event is performed, then only n iterations of the event loop are run
+                 (not to quiescence), then fault f strikes (0: L, 1: LE, 2: abort(), 3: close(7)
+                 from a task, 4: close(7) on a stalled transport), then the loop runs to quiescence
 """
 import asyncio
 import json
@@ -93,7 +103,10 @@ class World:
     """one connection; `act(event)` performs the event and runs the loop to quiescence"""
 
     def __init__(self, repo, skind='rpc', transport='rs', stalled=False, ptimeout=None,
-                 req_timeout=None):
+                 req_timeout=None, plain=False):
+        """plain: switch off, through the session's public class attributes, what the lifecycle
+        model leaves out: cost-based throttling (C13/C14) and the recalibration of the outgoing
+        concurrency limit (C20)"""
         logging.disable(logging.CRITICAL)
         self.skind = skind
         self.handlers = {}      # id -> record
@@ -109,6 +122,7 @@ class World:
         self.in_body_at_loss = None
         self.pending_at_hook = None
         self.in_body_at_hook = None
+        self.paused_at_hook = False
         self.errors = []
         world = self
 
@@ -138,6 +152,11 @@ class World:
                             raise
                         return 'waited'
                     if kind == 'C':
+                        await session.close(force_after=arg)
+                        rec['close_returned'] = world.now
+                        return 'closed'
+                    if kind == 'WC':
+                        await world.gate(hid)
                         await session.close(force_after=arg)
                         rec['close_returned'] = world.now
                         return 'closed'
@@ -179,9 +198,14 @@ class World:
                         await body(self, hid, command.decode(), arg)
             if ptimeout is not None:
                 S.processing_timeout = ptimeout
+            if plain:
+                S.cost_hard_limit = 0
+                S.recalibrate_count = 10 ** 9
             return S
 
         self.rig = Rig(repo, maker, transport=transport)
+        # the tasks the transport / session started in connection_made (message processing)
+        self.base_tasks = list(self.rig.tasks())
         self.mods = self.rig.mods
         self.tr = self.rig.tr
         self.tr.__class__ = StallTransport
@@ -215,6 +239,7 @@ class World:
         self.hook_times.append(self.now)
         if self.pending_at_hook is None:
             self.pending_at_hook, self.in_body_at_hook = self._snapshot()
+            self.paused_at_hook = bool(self.tr.paused_writing)
 
     def gate(self, hid):
         g = self.gates.get(hid)
@@ -240,6 +265,20 @@ class World:
             payload = (str(hid) if arg is None else f'{hid},{arg}').encode()
             self.tr.feed(self.bframer.frame((method.encode(), payload)))
 
+    def _wire_id(self, k):
+        """the id under which send_request('x', [k]) went out, if it has been written"""
+        for data in list(self.tr.out) + list(getattr(self.tr, 'buffer', [])):
+            for line in data.split(b'\n'):
+                if not line:
+                    continue
+                try:
+                    m = json.loads(line)
+                except ValueError:
+                    continue
+                if isinstance(m, dict) and m.get('method') == 'x' and m.get('params') == [k]:
+                    return m.get('id')
+        return None
+
     async def _batch(self):
         async with self.session.send_batch() as b:
             b.add_request('a')
@@ -253,14 +292,41 @@ class World:
         await self.session.close(force_after=fa)
 
     # ------------------------------------------------------------------ events
+    MICRO_FAULTS = {0: ('L',), 1: ('LE',), 2: ('AB',), 3: ('AC', 900, 7), 4: ('AC', 900, 7)}
+
     def act(self, ev):
+        """perform the event and run the loop to quiescence"""
+        if ev[0] == 'M':
+            self.micro = (ev[1], ev[2])
+            return self.observe()
+        micro, self.micro = getattr(self, 'micro', None), None
+        self._do(ev)
+        if micro is not None:
+            n, f = micro
+            for _ in range(n):
+                self.rig.loop.call_soon(self.rig.loop.stop)
+                self.rig.loop.run_forever()
+            if f == 4:
+                self.tr.stalled = True
+            fault = self.MICRO_FAULTS[f]
+            if fault[0] == 'AC':
+                fault = ('AC', 900 + len(self.closers), 7)
+            self._do(fault)
+        self.rig.idle()
+        return self.observe()
+
+    def _do(self, ev):
         k = ev[0]
         s = self.session
-        if k in ('Q', 'W', 'B', 'C', 'X', 'K', 'D'):
+        if k in ('Q', 'W', 'B', 'C', 'X', 'K', 'D', 'WC'):
             if ev[1] not in self.handlers:
                 self._feed_request(k, ev[1], ev[2] if len(ev) > 2 else None)
         elif k in ('NW', 'NQ'):
             self._feed_request(k[1], ev[1], notification=True)
+        elif k == 'WM':
+            for j in range(ev[2]):
+                if ev[1] + j not in self.handlers:
+                    self._feed_request('W', ev[1] + j)
         elif k == 'BT':
             self.fed_at.setdefault(ev[1], self.now)
             self.fed_at.setdefault(ev[2], self.now)
@@ -278,6 +344,8 @@ class World:
             self.tr.feed(bytes(fr))
         elif k == 'R':
             rec = self.outs.get(ev[1])
+            if rec is not None and rec.get('wire_id') is None and rec['kind'] == 'O':
+                rec['wire_id'] = self._wire_id(ev[1])
             if rec is not None and rec.get('wire_id') is not None:
                 self.tr.feed(json.dumps({'jsonrpc': '2.0', 'result': ev[1],
                                          'id': rec['wire_id']}).encode() + b'\n')
@@ -285,9 +353,24 @@ class World:
             g = self.gates.get(ev[1])       # only a handler that has started can be released
             if g is not None and not g.done():
                 g.set_result(None)
+        elif k == 'Z':
+            g = self.gates.get(ev[1])
+            h = self.handlers.get(ev[1])
+            if g is not None and not g.done() and h is not None and h.get('kind') == 'W':
+                g.cancel()
+        elif k == 'XC':
+            rec = self.closers.get(ev[1])
+            if rec is not None and not rec['task'].done():
+                rec['app_cancelled'] = self.now
+                rec['task'].cancel()
+        elif k == 'OM':
+            for j in range(ev[2]):
+                kk = ev[1] + j
+                if kk not in self.outs:
+                    rec = self.outs[kk] = {'kind': 'O', 'wire_id': None}
+                    self._task(s.send_request('x', [kk]), rec)
         elif k in ('O', 'OB', 'ON'):
             if ev[1] not in self.outs:
-                mark = len(self.tr.out)
                 rec = self.outs[ev[1]] = {'kind': k, 'wire_id': None}
                 if k == 'O':
                     coro = s.send_request('x', [ev[1]])
@@ -298,28 +381,18 @@ class World:
                 else:
                     coro = s.send_message((b'x', b''))
                 self._task(coro, rec)
-                self.rig.idle()
-                if k == 'O':
-                    for data in self.tr.out[mark:]:
-                        try:
-                            m = json.loads(data)
-                        except ValueError:
-                            continue
-                        if isinstance(m, dict) and m.get('method') == 'x' and m.get('params') == [ev[1]]:
-                            rec['wire_id'] = m.get('id')
         elif k == 'AC':
             if ev[1] not in self.closers:
-                rec = self.closers[ev[1]] = {'fa': ev[2], 'closed_at_call': self.is_closed()}
+                rec = self.closers[ev[1]] = {'fa': ev[2]}
                 self._task(s.close(force_after=ev[2]), rec)
         elif k == 'ACC':
             for c in (ev[1], ev[2]):
                 if c not in self.closers:
-                    rec = self.closers[c] = {'fa': ev[3], 'closed_at_call': self.is_closed()}
+                    rec = self.closers[c] = {'fa': ev[3]}
                     self._task(s.close(force_after=ev[3]), rec)
         elif k == 'ACT':
             if ev[1] not in self.closers:
-                rec = self.closers[ev[1]] = {'fa': ev[2], 'closed_at_call': self.is_closed(),
-                                             'twice': True}
+                rec = self.closers[ev[1]] = {'fa': ev[2], 'twice': True}
                 self._task(self._close_twice(ev[2], rec), rec)
         elif k == 'AB':
             rec = {}
@@ -337,12 +410,26 @@ class World:
             self.rig.advance(ev[1])
         else:
             raise ValueError(f'unknown event {ev!r}')
-        self.rig.idle()
-        return self.observe()
 
     # ------------------------------------------------------------------ observations
     def is_closed(self):
-        return self.proto._closed_event.is_set()
+        """has message processing ended?  (correspondence only; the oracle does not use it.)
+        Read from the transport's own flag where it has one, else from behaviour: the tasks
+        started in connection_made are done."""
+        ev = getattr(self.proto, '_closed_event', None)
+        if ev is not None and hasattr(ev, 'is_set'):
+            return bool(ev.is_set())
+        return all(t.done() for t in self.base_tasks)
+
+    def first_abort(self):
+        """instant of the first abort() on the asyncio transport that came before
+        connection_lost was delivered (a later one does nothing)"""
+        for rec in self.tr.log:
+            if rec[1] == 'connection_lost':
+                return None
+            if rec[1] == 'abort':
+                return _itime(rec[0])
+        return None
 
     def outcome(self, task):
         if not task.done():
@@ -375,13 +462,15 @@ class World:
             elif o == 'returned':
                 o = f'returned@{r["done_at"]}'
             closers.append(f'{c}:{o}')
+        fa = self.first_abort()
         return {
             'hook': len(self.hook_times),
             'closed': self.is_closed(),
             'live': sum(1 for r in self.handlers.values() if 'task' in r and not r['task'].done()),
             'tickets': tickets,
             'closers': closers,
-            'aborts': [_itime(rec[0]) for rec in self.tr.log if rec[1] == 'abort'],
+            'abort': '-' if fa is None else fa,
+            'lost': self.tr.lost_delivered,
             'now': self.now,
             'closing': self.tr.is_closing(),
         }
@@ -408,13 +497,13 @@ def parse_events(text):
     return evs
 
 
-WATCHDOG_S = 5       # wall-clock seconds for ONE case (a normal case takes ~1 ms)
+CPU_BUDGET_S = 20.0     # CPU seconds (user time of this process) for ONE case; a normal case takes ~1-50 ms
 
 
 class _Spin(KeyboardInterrupt):
-    """raised by the wall-clock watchdog: code under test loops without ever yielding to the
-    event loop (the virtual loop cannot see that).  A KeyboardInterrupt subclass because asyncio
-    lets only those escape from a task step."""
+    """raised by the CPU-time watchdog: code under test loops without ever yielding to the event
+    loop (the virtual loop cannot see that).  A KeyboardInterrupt subclass because asyncio lets
+    only those escape from a task step."""
 
 
 _TRIPPED = [False]
@@ -425,21 +514,24 @@ def _watchdog(signum, frame):
     raise _Spin()
 
 
-def run_events(repo, cfg, events):
+def run_events(repo, cfg, events, budget=CPU_BUDGET_S):
     """-> (list of per-event observations, final World summary) ; never raises for loop stalls:
-    Deadlock / Livelock (also: a wall-clock watchdog for code that spins without yielding) are
-    recorded as observations"""
-    use_alarm = threading.current_thread() is threading.main_thread()
+    Deadlock / Livelock are recorded as observations.  Code that spins without yielding is cut
+    off by a watchdog on the CPU time this process has used (ITIMER_VIRTUAL: not wall-clock time,
+    so a loaded machine cannot trip it); the summary then carries `spin` and the caller decides
+    (harness/c08.py re-runs the case: only a spin that repeats is an observation)."""
+    use_timer = threading.current_thread() is threading.main_thread()
     old = None
     _TRIPPED[0] = False
-    if use_alarm:
-        old = signal.signal(signal.SIGALRM, _watchdog)
-        signal.setitimer(signal.ITIMER_REAL, WATCHDOG_S)
+    if use_timer:
+        old = signal.signal(signal.SIGVTALRM, _watchdog)
+        signal.setitimer(signal.ITIMER_VIRTUAL, budget)
     w = None
     try:
         try:
             w = World(repo, cfg.get('skind', 'rpc'), cfg.get('transport', 'rs'),
-                      cfg.get('stalled', False), cfg.get('ptimeout'), cfg.get('req_timeout'))
+                      cfg.get('stalled', False), cfg.get('ptimeout'), cfg.get('req_timeout'),
+                      cfg.get('plain', False))
             obs, stall = [], None
             for i, ev in enumerate(events):
                 try:
@@ -449,15 +541,25 @@ def run_events(repo, cfg, events):
                     break
                 if _TRIPPED[0]:
                     raise _Spin()
-            if use_alarm:
-                signal.setitimer(signal.ITIMER_REAL, 0)
+            if stall is None:
+                # "left waiting" means for ever: callers queued behind the outgoing limiter after
+                # the loss are released wave by wave by their timeouts - give them the time
+                try:
+                    for _ in range(40):
+                        if all(r['task'].done() for r in w.outs.values()):
+                            break
+                        w.rig.advance(100)
+                except (vloop.Deadlock, vloop.Livelock) as e:
+                    stall = (len(events) - 1, type(e).__name__)
+            if use_timer:
+                signal.setitimer(signal.ITIMER_VIRTUAL, 0)
             return obs, summary(w, stall)
         except _Spin:
-            return [], spin_summary(len(events))
+            return [], spin_summary(len(events), budget)
     finally:
-        if use_alarm:
-            signal.setitimer(signal.ITIMER_REAL, 0)
-            signal.signal(signal.SIGALRM, old)
+        if use_timer:
+            signal.setitimer(signal.ITIMER_VIRTUAL, 0)
+            signal.signal(signal.SIGVTALRM, old)
         if w is not None:
             try:
                 w.close()
@@ -465,14 +567,14 @@ def run_events(repo, cfg, events):
                 pass
 
 
-def spin_summary(n):
+def spin_summary(n, budget):
     return {'stall': (0, 'Livelock'), 'handlers': {}, 'outs': {}, 'closers': {}, 'aborters': [],
             'hook_times': [], 'lost_at': None, 'pending_at_loss': None, 'in_body_at_loss': None,
-            'pending_at_hook': None, 'in_body_at_hook': None, 'closed_event': False,
+            'pending_at_hook': None, 'in_body_at_hook': None, 'paused_at_hook': False, 'closed': False,
             'closing': False, 'lost_delivered': False, 'leftover_session_tasks': 0,
-            'leftover_own_tasks': 0, 'aborts': [], 'message_task': None, 'loop_exceptions': [],
+            'leftover_own_tasks': 0, 'aborts': [], 'first_abort': None, 'loop_exceptions': [],
             'now': 0, 'writes_after_close': 0, 'max_send_delay': 0, 'processing_timeout': 0,
-            'spin': True}
+            'spin': budget}
 
 
 def summary(w, stall):
@@ -485,23 +587,23 @@ def summary(w, stall):
     outs = {k: {'kind': r['kind'], 'start': r['start'], 'done_at': r['done_at'],
                 'outcome': w.outcome(r['task'])} for k, r in w.outs.items()}
     closers = {c: {'fa': r['fa'], 'start': r['start'], 'done_at': r['done_at'],
-                   'outcome': w.outcome(r['task']), 'closed_at_call': r['closed_at_call'],
+                   'outcome': w.outcome(r['task']), 'app_cancelled': r.get('app_cancelled'),
                    'twice': r.get('twice', False)} for c, r in w.closers.items()}
     aborters = [w.outcome(r['task']) for r in w.aborters]
     own = {r['task'] for r in list(w.outs.values()) + list(w.closers.values()) + w.aborters}
     left = [t for t in w.leftover_tasks()]
-    pm = w.proto._process_messages_task
     return {
         'stall': stall, 'handlers': hs, 'outs': outs, 'closers': closers, 'aborters': aborters,
         'hook_times': list(w.hook_times), 'lost_at': w.lost_at,
         'pending_at_loss': w.pending_at_loss, 'in_body_at_loss': w.in_body_at_loss,
         'pending_at_hook': w.pending_at_hook, 'in_body_at_hook': w.in_body_at_hook,
-        'closed_event': w.is_closed(), 'closing': w.tr.is_closing(),
+        'paused_at_hook': w.paused_at_hook,
+        'closed': w.is_closed(), 'closing': w.tr.is_closing(),
         'lost_delivered': w.tr.lost_delivered,
         'leftover_session_tasks': len([t for t in left if t not in own]),
         'leftover_own_tasks': len([t for t in left if t in own]),
         'aborts': [_itime(rec[0]) for rec in w.tr.log if rec[1] == 'abort'],
-        'message_task': w.outcome(pm) if pm is not None else None,
+        'first_abort': w.first_abort(),
         'loop_exceptions': list(w.loop_exceptions),
         'now': w.now,
         'writes_after_close': sum(1 for rec in w.tr.log if rec[1] == 'write-after-close'),
